@@ -37,7 +37,7 @@ ASSUMPTIONS = [
     'the OS, real sockets and process spawning are not exercised',
 ]
 SHARDS = {'quick': 16, 'thorough': 16}
-BUDGET_S = {'quick': 200, 'thorough': 2400}
+BUDGET_S = {'quick': 150, 'thorough': 2400}
 
 
 def run_once(case, crash_at, crash_node, crash2=None, want_info=False):
@@ -229,5 +229,5 @@ def run_shard(ctx: core.Ctx) -> core.ShardResult:
     # no Hypothesis shrinking: one case is already ~100 faulted executions
     # and the violation detail names the node and crash point
     core.run_hypothesis(ctx, res, cases(ctx.tier == 'quick'), check,
-                        ctx.n(5, 120), shrink=False)
+                        ctx.n(4, 120), shrink=False)
     return res
